@@ -23,6 +23,7 @@ import (
 	"github.com/echovault/sugardb/internal/constants"
 	"io"
 	"net"
+	"slices"
 	"strings"
 )
 
@@ -188,6 +189,8 @@ func (server *SugarDB) handleCommand(ctx context.Context, message []byte, conn *
 
 	if !server.isInCluster() || !synchronize {
 		verifPointCmd("cmd.before_handler", 0, message)
+		// The clock as the handler is about to see it: what a relative expiry is counted from.
+		now := server.clock.Now()
 		res, err := handler(server.getHandlerFuncParams(ctx, cmd, conn))
 		if err != nil {
 			// The command is over: a state copy (snapshot, AOF rewrite) must not wait for it for ever.
@@ -198,7 +201,11 @@ func (server *SugarDB) handleCommand(ctx context.Context, message []byte, conn *
 		verifPointCmd("cmd.after_handler", 0, message)
 		if internal.IsWriteCommand(command, subCommand) && !replay {
 			// Log the command under the database it has just been executed in
-			// (the embedded caller's database is not in tcpClients).
+			// (the embedded caller's database is not in tcpClients). A relative expiry is logged as the
+			// absolute time it has just been given: a replay must not count it again from its own clock.
+			if abs := internal.AbsoluteExpiryForm(cmd, now); !slices.Equal(abs, cmd) {
+				message = internal.EncodeCommand(abs)
+			}
 			server.aofEngine.LogCommand(ctx.Value("Database").(int), message)
 		}
 
